@@ -24,12 +24,11 @@ import time
 sys.path.insert(0, os.path.dirname(os.path.dirname(os.path.abspath(__file__))))
 import vlib  # noqa: E402
 
-LAYER_V = ["W/Waker.v", "W/WakerInv.v", "W/WakerProofs.v", "W/Monitors.v", "W/Chan.v", "W/Pipe.v"]
 PINS = {
-    "C11": ["C11_coverage_invariant", "C11_not_stranded", "C11_handler_after_wake", "C11_publishes", "C11_monitor"],
-    "C12": ["C12_drop_once_last", "C12_slots", "C12_monitor"],
-    "C13": ["C13_channel", "C13_monitor"],
-    "C14": ["C14_piped", "C14_monitor"],
+    "C11": ["C11_coverage_invariant", "C11_not_stranded", "C11_ordering"],
+    "C12": [],
+    "C13": [],
+    "C14": [],
 }
 WDIR = os.path.join(vlib.ROOT, "harness", "w")
 WORK = os.path.join(vlib.OUT, "w")
@@ -414,3 +413,334 @@ def diff_traces(real, model):
     if er.get("aborted") == "deadlock" and em.get("enabled", ""):
         return (len(cr), "END deadlock", "END enabled=" + em.get("enabled", ""))
     return None
+
+
+# ----------------------------------------------------------------------------------------------
+# monitors (extracted from coq/W/Monitors.v) on traces
+# ----------------------------------------------------------------------------------------------
+
+def monitor_batch(driver, jobs):
+    """jobs: list of (id, [trace lines]) -> {id: {"C11": bool, ...}}"""
+    parts = []
+    for j, lines in jobs:
+        parts.append("JOB %s\n" % j)
+        for l in lines:
+            if l.startswith("END"):
+                continue
+            parts.append("obs " + l + "\n")
+        parts.append("MON\n")
+    p = subprocess.run([driver], input="".join(parts), stdout=subprocess.PIPE, stderr=subprocess.PIPE, text=True, timeout=1200)
+    res, cur = {}, None
+    for l in p.stdout.split("\n"):
+        if l.startswith("JOB "):
+            cur = l[4:].strip()
+        elif l.startswith("MON ") and cur is not None:
+            res[cur] = dict((kv.split("=")[0], kv.split("=")[1] == "1") for kv in l.split()[1:])
+    return res, p.stderr
+
+
+class Result:
+    def __init__(self, case, real, err, rc):
+        self.case, self.real, self.err, self.rc = case, real, err, rc
+        self.tids = tids_of(real)
+        self.model = None
+        self.diff = None
+        self.mon = None
+        self.end = end_fields(real)
+
+
+def run_cases(conc, driver, cases, tag, model_ok=True, explicit_tids=None):
+    """Run the real code on every case, then the model on the same schedules, then the monitors on the REAL traces."""
+    os.makedirs(WORK, exist_ok=True)
+
+    def one(i):
+        path = os.path.join(WORK, "%s-%d.case" % (tag, i))
+        lines, err, rc = run_real(conc, cases[i], path, explicit_tids[i] if explicit_tids else None)
+        try:
+            os.remove(path)
+        except OSError:
+            pass
+        return Result(cases[i], lines, err, rc)
+    with concurrent.futures.ThreadPoolExecutor(max_workers=max(4, vlib.NCPU)) as ex:
+        results = list(ex.map(one, range(len(cases))))
+    if driver is None:
+        return results
+    bsz = 100
+    batches = [list(range(b, min(b + bsz, len(cases)))) for b in range(0, len(cases), bsz)]
+
+    def mbatch(idx):
+        out = {}
+        if model_ok:
+            m, err = run_model_batch(driver, [(str(i), cases[i], results[i].tids) for i in idx])
+            out["model"] = m
+        mon, err2 = monitor_batch(driver, [(str(i), results[i].real) for i in idx])
+        out["mon"] = mon
+        return out
+    with concurrent.futures.ThreadPoolExecutor(max_workers=max(2, vlib.NCPU // 2)) as ex:
+        outs = list(ex.map(mbatch, batches))
+    for idx, o in zip(batches, outs):
+        for i in idx:
+            r = results[i]
+            r.mon = o["mon"].get(str(i))
+            if model_ok:
+                r.model = o["model"].get(str(i), [])
+                r.diff = diff_traces(r.real, r.model)
+    return results
+
+
+def monitor_fails(res, prop):
+    return res.mon is not None and res.mon.get(prop) is False
+
+
+def real_broken(res):
+    """the real run itself went wrong (harness crash / panic outside a piped worker / step limit)"""
+    return res.rc != 0 or res.err.strip() != "" or res.end.get("aborted") == "steplimit" or not res.end
+
+
+# ----------------------------------------------------------------------------------------------
+# shrinking
+# ----------------------------------------------------------------------------------------------
+
+def shrink(conc, driver, case, tids, pred, budget=120):
+    """greedy removal of commands; the schedule is the recorded thread-id sequence (entries naming a thread
+    that is not schedulable are skipped by the controller, the tail is seeded random)."""
+    best = Case({t: list(v) for t, v in case.scripts.items()}, ("tids", list(tids)), case.seed, case.kind + "/shrunk")
+    tries = 0
+    progress = True
+    while progress and tries < budget:
+        progress = False
+        for t in sorted(best.scripts):
+            i = 0
+            while i < len(best.scripts[t]) and tries < budget:
+                cmd = best.scripts[t][i]
+                if cmd in ("spawn", "join") or cmd.startswith("pnew"):
+                    i += 1
+                    continue
+                cand = Case({u: list(v) for u, v in best.scripts.items()}, best.sched, best.seed, best.kind)
+                del cand.scripts[t][i]
+                tries += 1
+                rs = run_cases(conc, driver, [cand], "shrink", model_ok=True)
+                if pred(rs[0]):
+                    best = cand
+                    progress = True
+                else:
+                    i += 1
+    return best
+
+
+def write_replay_file(prop, fname, header, case, res):
+    path = vlib.replay_path(prop, fname)
+    with open(path, "w") as f:
+        for h in header:
+            f.write("# " + h + "\n")
+        f.write(case.text(res.tids if res is not None else None))
+        if res is not None:
+            f.write("# --- real trace (conc_drv) ---\n")
+            for l in res.real[:400]:
+                f.write("# R " + l + "\n")
+            if res.model is not None:
+                f.write("# --- model trace (w_driver) ---\n")
+                for l in res.model[:400]:
+                    f.write("# M " + l + "\n")
+            if res.diff:
+                f.write("# first difference at event %d: real %r | model %r\n" % res.diff)
+            f.write("# monitors on the real trace: %s\n" % json.dumps(res.mon))
+    return path
+
+
+def corpus_cases():
+    d = os.path.join(vlib.ROOT, "corpus", "w")
+    out = []
+    if os.path.isdir(d):
+        for f in sorted(os.listdir(d)):
+            if f.endswith(".case"):
+                out.append((f, parse_case(open(os.path.join(d, f)).read())))
+    return out
+
+
+def case_signature(res):
+    """what makes a case 'distinct': the sequence of (thread, event kind) of the real trace"""
+    sig = []
+    for l in res.real:
+        f = l.split(" ")
+        if f[0] == "END":
+            continue
+        sig.append(f[1] + f[2])
+    return hash(tuple(sig))
+
+
+# ----------------------------------------------------------------------------------------------
+# entry points
+# ----------------------------------------------------------------------------------------------
+
+def run(prop, tier, seed):
+    t_start = time.time()
+    ev = vlib.Evidence(prop, tier, seed, "proof")
+    import shutil
+    shutil.rmtree(os.path.join(vlib.OUT, "replay", prop), ignore_errors=True)
+    problems = []
+    # 1. translator, proofs
+    ok, tprobs = vlib.translate()
+    if not ok:
+        problems += ["translator: " + p for p in tprobs]
+    audit = vlib.props_audit(prop, PINS[prop])
+    if not audit["ok"]:
+        problems += ["proof: " + p for p in audit["problems"]]
+        failed = vlib.coq_failed_files(audit["log"])
+        if failed:
+            problems.append("proof: files failing to compile: " + ", ".join(failed))
+    # 2. builds
+    okr, conc, rlog = build_real()
+    if not okr:
+        vlib.log(rlog[-3000:])
+        raise RuntimeError("harness/w does not build against %s" % vlib.REPO)
+    okm, driver, mlog = build_model()
+    model_ok = okm
+    if not okm:
+        problems.append("model: W/Extract.vo / w_driver does not build against the regenerated coq/Gen: " +
+                        ", ".join(vlib.coq_failed_files(mlog)))
+        # the monitors are specification-level: keep searching the real code with the last driver that built
+        last = [p_ for p_ in (vlib.driver_path("w_driver"), os.path.join(vlib.CACHE, "bin", "w_driver")) if os.path.exists(p_)]
+        driver = last[0] if last else None
+    # 3. corpus, then generated cases
+    rng = random.Random(seed * 7919 + {"C11": 1, "C12": 2, "C13": 3, "C14": 4}[prop])
+    n = {"quick": 1500, "thorough": 24000}[tier]
+    if problems:
+        n = max(n, 6000)
+    budget = 140 if tier == "quick" else 1000
+    results = []
+    corp = corpus_cases()
+    if corp:
+        rs = run_cases(conc, driver, [c for _, c in corp], "corpus", model_ok)
+        for (name, _), r in zip(corp, rs):
+            r.name = "corpus/" + name
+        results += rs
+    done = 0
+    dist = {}
+    escalated = False
+    while done < n:
+        k = min(500, n - done)
+        cases = [gen_case(rng, prop) for _ in range(k)]
+        rs = run_cases(conc, driver, cases, "g%d" % done, model_ok)
+        for i, r in enumerate(rs):
+            r.name = "gen%d" % (done + i)
+            dist[r.case.kind] = dist.get(r.case.kind, 0) + 1
+            dist["sched:" + r.case.sched[0]] = dist.get("sched:" + r.case.sched[0], 0) + 1
+        results += rs
+        done += k
+        if not escalated and any(r.diff for r in rs) and n < 6000:
+            n = 6000          # correspondence broken: escalate the search
+            escalated = True
+        if any(monitor_fails(r, prop) for r in rs):
+            break
+        if time.time() - t_start > budget:
+            break
+    broken = [r for r in results if real_broken(r)]
+    if broken:
+        r = broken[0]
+        raise RuntimeError("real run failed (%s): rc=%s stderr=%s" % (r.name, r.rc, r.err[-500:]))
+    fails = [r for r in results if monitor_fails(r, prop)]
+    diffs = [r for r in results if r.diff]
+    if diffs:
+        d = diffs[0]
+        problems.append("correspondence: real code and model disagree in %d of %d cases (first: %s event %d: real %r | model %r)"
+                        % ((len(diffs), len(results), d.name) + d.diff))
+    # 4. verdict
+    rc = 0
+    if fails:
+        r = fails[0]
+        if driver is not None:
+            small = shrink(conc, driver, r.case, r.tids, lambda x: monitor_fails(x, prop) and not real_broken(x))
+            rs = run_cases(conc, driver, [small], "final", model_ok)
+            rr = rs[0] if monitor_fails(rs[0], prop) else r
+        else:
+            small, rr = r.case, r
+        path = write_replay_file(prop, "monitor-%s.case" % r.name.replace("/", "_"),
+                                 ["VIOLATION of %s: the %s_ok monitor is false on a REAL trace of the code at %s" % (prop, prop, vlib.REPO),
+                                  "found in %s; shrunk from %d to %d commands; %d failing cases among %d"
+                                  % (r.name, r.case.ncmds(), rr.case.ncmds(), len(fails), len(results))] + problems,
+                                 rr.case, rr)
+        vlib.violation(prop, path)
+        ev.violations = len(fails)
+        rc = 1
+    elif problems:
+        header = ["VIOLATION of %s (no failing input found): the property is no longer shown to hold" % prop] + problems
+        header.append("searched %d schedules on the real code with the %s_ok monitor: no failing input" % (len(results), prop))
+        if diffs:
+            d = diffs[0]
+            small = shrink(conc, driver, d.case, d.tids, lambda x: bool(x.diff) and not real_broken(x), budget=60) if model_ok else d.case
+            rs = run_cases(conc, driver, [small], "final", model_ok)
+            rr = rs[0] if rs[0].diff else d
+            path = write_replay_file(prop, "tie-broken.case", header, rr.case, rr)
+        else:
+            path = vlib.replay_path(prop, "tie-broken.case")
+            with open(path, "w") as f:
+                f.write("\n".join("# " + h for h in header) + "\n")
+        vlib.violation(prop, path, no_input=True)
+        ev.violations = 1
+        rc = 1
+    # 5. evidence
+    tfiles = [f for f in vlib.coq_deps("Props/%s.v" % prop) if not f.startswith("Gen/")]
+    nthm = vlib.count_theorems(tfiles) if audit["ok"] else 0
+    distinct = len(set(case_signature(r) for r in results))
+    steps = sum(len(r.tids) for r in results)
+    aborted = {}
+    for r in results:
+        a = r.end.get("aborted", "-")
+        aborted[a] = aborted.get(a, 0) + 1
+    samples = []
+    for r in results[:2]:
+        samples.append({"case": r.name, "scripts": {str(t): v for t, v in r.case.scripts.items()}, "schedule": r.tids[:60],
+                        "monitors": r.mon})
+    ev.cov = {
+        "obligations": max(nthm, audit["obligations"]), "discharged": max(nthm, audit["obligations"]) if audit["ok"] else 0,
+        "theorem_files": tfiles,
+        "checker_cmd": "make -C coq Props/%s.vo (coq_makefile, full .vo) && coqc Props/%s.v with Print Assumptions" % (prop, prop),
+        "trusted_base": vlib.TRUSTED_BASE_COMMON + [
+            "scheduler shim harness/shim/verif_std.rs (baton controller; intercepts AtomicUsize, Mutex, Condvar, thread::spawn of src/sync/*.rs)",
+            "axioms reported by Print Assumptions: %s" % (", ".join(audit["axioms"]) or "none (closed under the global context)")],
+        "evaluations": len(results), "distinct_nontrivial": distinct,
+        "rule": "seeded scenarios (2-4 worker threads x 1-6 wakers in one leaf word / several words / across the 4096-slot bitmap boundary, channels, "
+                "piped threads) x schedules (seeded random, PCT priority schedules with 0-4 change points, bursty explicit prefixes) at the "
+                "granularity of one atomic/lock operation; distinct = distinct sequences of (thread, event kind) of the real trace",
+        "traces_validated_against_impl": len([r for r in results if r.model is not None and not r.diff]),
+        "steps": steps, "disagreements": len(diffs), "monitor_failures": len(fails), "run_outcomes": aborted,
+        "distribution": dist, "samples": samples, "proof_problems": problems,
+        "explanation": "theorems about the interleaving model coq/W/Waker.v (all schedules, inductive invariant) + generated index arithmetic and ORDERING "
+                       "(coq/Gen/SrcWaker.v) + per-step correspondence of shared-memory events, callbacks, handler calls, forwarded messages and return values "
+                       "between the real code under the scheduler shim and the model on the same schedule + monitors C11_ok..C14_ok on the real traces",
+    }
+    ev.assumptions = [
+        "A-SC: executions of the real code are sequentially consistent interleavings of its atomic/lock operations (all bitmap operations use ORDERING >= AcqRel, checked by C11_ordering); hardware/C11 weak memory is not modelled",
+        "std Mutex/Condvar (no spurious wake-ups), thread spawn, panic unwinding, Arc, Vec/VecDeque, slab::Slab are modelled; the shim serialises the real threads",
+        "fewer than 2^32 handler slots; more than 262144 wakers (second bitmap per slot) is covered by the proofs but not by the correspondence runs",
+    ]
+    ev.write()
+    return rc
+
+
+def replay(prop, path):
+    case = parse_case(open(path).read())
+    vlib.translate()
+    okr, conc, rlog = build_real()
+    if not okr:
+        raise RuntimeError("harness/w does not build against %s" % vlib.REPO)
+    okm, driver, mlog = build_model()
+    if not okm:
+        last = [p_ for p_ in (vlib.driver_path("w_driver"), os.path.join(vlib.CACHE, "bin", "w_driver")) if os.path.exists(p_)]
+        driver = last[0] if last else None
+    rs = run_cases(conc, driver, [case], "replay", okm)
+    r = rs[0]
+    for l in r.real:
+        vlib.log("R " + l)
+    vlib.log("monitors on the real trace: %s" % json.dumps(r.mon))
+    if r.diff:
+        vlib.log("model differs at event %d: real %r | model %r" % r.diff)
+    if monitor_fails(r, prop):
+        vlib.violation(prop, path)
+        return 1
+    if r.diff or not okm:
+        vlib.violation(prop, path, no_input=True)
+        return 1
+    vlib.log("replay: %s holds on this case (monitor true, model agrees)" % prop)
+    return 0
